@@ -427,6 +427,9 @@ func c12(r *h.Result, rng *h.Rng, tier string, replay string) error {
 		"stage streams: see streams."
 	r.Stream("explore: every read endpoint through fakes.NewReaderRouter (real apirouterv1 routes) over loopback HTTP in child processes; oracle = child alive, response within the deadline, goroutine census and open result sets back to baseline (exploration of the runtime part: support, not an obligation)")
 
+	if os.Getenv("C12_ONLY") == "status-all" { // development aid: only the controller status stream
+		return c12Stages(r, rng.Fork(), tier)
+	}
 	// known witnesses first (the corpus of this property), then the tier's quota
 	var cases []*c12Case
 	for _, c := range c12Corpus() {
@@ -568,6 +571,14 @@ func c12Corpus() []*c12Case {
 		// any fault in a pipeline stage killed the process (TamePanic deferred in the nested form); witness from the C09 agent
 		win(&c12Case{Endpoint: "loki/query_range", Method: "GET", Query: `{a="b"} | json | label_format x="y"`, Class: "corpus TamePanic",
 			Path: "/loki/api/v1/query_range?query=%7Ba%3D%22b%22%7D+%7C+json+%7C+label_format+x%3D%22y%22&step=1&start=" + start + "&end=" + end, Answers: one(3)}),
+		// round 3: the tail's service goroutine ran the planner chain without a recover (`| regexp` without a parameter faults in it)
+		win(&c12Case{Kind: "tail", Endpoint: "loki/tail", Method: "GET", Query: `{a="b"} | regexp `, Class: "corpus tail planner fault", GoneAfter: 2,
+			Path: "/loki/api/v1/tail?query=%7Ba%3D%22b%22%7D+%7C+regexp+", Answers: []c12Answer{{Shape: "logs", N: 5, Seed: 3}}}),
+		// round 3: recursion depth of the participle parsers grows with the text: stack overflow (fatal, not recoverable)
+		win(&c12Case{Endpoint: "loki/query_range", Method: "GET", Query: "deep", Class: "corpus deep nesting LogQL",
+			Path: "/loki/api/v1/query_range?query=%7Ba%3D%22b%22%7D%20%7C%20" + strings.Repeat("(", 300000) + "a%3D%22b%22" + strings.Repeat(")", 300000) + "&start=" + start + "&end=" + end + "&step=15", Answers: one(1)}),
+		win(&c12Case{Endpoint: "tempo/search", Method: "GET", Query: "deep", Class: "corpus deep nesting TraceQL",
+			Path: "/api/search?q=%7B" + strings.Repeat("(", 450000) + ".a%3D%22b%22" + strings.Repeat(")", 450000) + "%7D&start=1700000000&end=1700003600", Answers: one(1)}),
 		// A21
 		win(&c12Case{Endpoint: "loki/query_range", Method: "GET", Query: `count_over_time({a="b"} | json [1m])`, Class: "corpus A21 bucket index",
 			Path: "/loki/api/v1/query_range?query=count_over_time%28%7Ba%3D%22b%22%7D+%7C+json+%5B1m%5D%29&step=60&start=" + start + "&end=" + end, Answers: []c12Answer{{Shape: "logs-at-end", N: 150, Seed: 3}}}),
